@@ -9,6 +9,7 @@ Wire format (VCD symbols may contain parentheses, so a symbol travels as the lis
 * `vcd replay ((w (codes…))…) (ev…) n`      → `((v|x …) …)` per cycle, per declaration
 * `vcd edges (codes…) (ev…)`               → `((t v) …)` timestamped value lines of that symbol
 * `vcd wav w (v…)`                          → `(0b… …)` the text-wave record of a w-bit signal
+* `vcd symbol n` / `vcd symbols lo cnt`     → `(codes…)` / `((codes…) …)`: `symCodes` of net n / of nets lo … lo+cnt-1
 * `vcd sym n`                              → `(codes…)`
 with `ev` = `(t <time>)` or `(c <value token> (codes…))`; the value token is `0`, `1` or `b<digits>` — a `b…`
 token stands for the text `b<digits>` followed by the blank that separated it from the symbol in the file.
@@ -64,6 +65,11 @@ def handle (args : List Sexp) : Option String :=
       some ("(" ++ " ".intercalate (r.map (fun p => s!"({p.1} {p.2})")) ++ ")")
   | [.atom "wav", w, vals] => do
       some ("(" ++ " ".intercalate (wavRecord (← w.nat?) (← vals.nats?)) ++ ")")
+  | [.atom "symbol", n] => do some (natsToString (symCodes (← n.nat?)))
+  | [.atom "symbols", lo, cnt] => do
+      let lo ← lo.nat?
+      let cnt ← cnt.nat?
+      some ("(" ++ " ".intercalate ((List.range cnt).map (fun i => natsToString (symCodes (lo + i)))) ++ ")")
   | [.atom "sym", n] => do some (symOut (symbol (← n.nat?)))
   | _ => none
 
